@@ -17,7 +17,7 @@ DICTIONARY = [
     "256", "0x", "0b2", "0o8", "1e3", "1.5", ".5", "5.", "1_0", "_1", "1__0", "''", "'", '"', "'a'", "'\\n'", "'\\u00e9'", "'\\uD800'",
     "'\\U0010FFFF'", "'\\U00110000'", "'\\z'", "'\\u12'", "#", "\t", " ", "\n", "\r\n", "\r", "\x00", "\x0b", "\x0c", "﻿", " ",
     "é", "Ω", "𝔘", "١", "pvns.T0.1.0", "pvns.T0.1", "T0.1.0", "pvns.t0.1.0", "pvns.T9.1.0", "x.y.1.0", "optional", "struct", "con",
-    "_a_", "a" * 300, "9" * 40,
+    "_a_", "a" * 300, "9" * 40, "pvns.Svc.1.0", "Svc.1.0", "pvns.Svc.1.0[2]", "pvns.Svc.1.0[<=2]", "pvns.Svc.1.0._extent_",
 ]
 
 CORNER_STATEMENTS = [
@@ -40,6 +40,8 @@ CORNER_STATEMENTS = [
     "@print uint8", "@print uint8._bit_length_", "@print uint8[<=3]._bit_length_.max", "@print bool._extent_", "@print uint8.foo",
     "@print uint8 + 1", "@print {uint8, int8}", "@print {uint8, int8}.count", "@print uint8 == uint8", "@print uint8 == int8",
     "@print pvns.T0.1.0", "@print pvns.T0.1.0._extent_", "@print pvns.T0.1.0.NOPE", "@print pvns.T0.1.0._bit_length_ | {7}",
+    "pvns.Svc.1.0 s", "Svc.1.0[2] s", "pvns.Svc.1.0[<=3] s", "@print pvns.Svc.1.0._extent_", "@print pvns.Svc.1.0._bit_length_", "@print pvns.Svc.1.0",
+    "@print pvns.Svc.1.0 == pvns.Svc.1.0", "@print {pvns.Svc.1.0}", "@union\npvns.Svc.1.0 a\nuint8 b", "@print pvns.Svc.1.0.a", "@print pvns.Svc.Request.1.0",
     "@print pvns.T0.2.0", "@print pvns.T0.1.0.1.0", "@print T0.1.0", "@print pvns.t0.1.0", "@print pvns.Main.1.0", "pvns.Main.1.0 me",
     "@foo", "@", "@ print 1", "@print", "@assert", "@assert 1", "@assert 'true'", "@print 1 2", "@print (", "@print )", "@print (1",
     "@print " + "(" * 16 + "1" + ")" * 16, "@print " + "{" * 12 + "1" + "}" * 12, "@print " + "!" * 16 + "true", "@print " + "-(" * 15 + "1" + ")" * 15,
@@ -169,6 +171,8 @@ def gen_file_name(rng):
         if rng.random() < 0.5:
             comps = [str(rng.choice([0, 8191, 7168, 6144, 511, 100000]))] + comps
         cls = "well-formed"
+    if rng.random() < 0.08:
+        comps = [""] + comps  # hidden file / sidecar: leading dot gives an empty first field
     name = ".".join(comps) + ext
     dirs = []
     if cls == "hostile-directory":
